@@ -57,4 +57,6 @@ class Hybrid(AutoSerialize, torch.nn.Module):
         return self.lin(x) + self._p1.sum()
 
 
-CLASSES = {"Inner": Outer.Inner, "Hybrid": Hybrid, "Plain": Plain, "Node": Node, "Leaf": Leaf, "Other": Other, "AttrsLike": AttrsLike}
+import qsim_models2  # noqa: E402
+
+CLASSES = {**qsim_models2.CLASSES, "Inner": Outer.Inner, "Hybrid": Hybrid, "Plain": Plain, "Node": Node, "Leaf": Leaf, "Other": Other, "AttrsLike": AttrsLike}
